@@ -182,6 +182,38 @@ def c17b(ctx, tu):
                detail="" if ok else "a non-void result must be recorded by (and returned through) the agent")
 
 
+def c17b_value(ctx, tu):
+    """the record carries the RETURNED value: where the agent prints its result parameter, that parameter has not yet
+    been moved / forwarded from on any path (a value of class type would be printed in its moved-from state)"""
+    n = 0
+    for fn in tu.find(AG + "::trace_return"):
+        if not fn.has_body or (fn.rec.get("ret") or "").strip() == "void" or not fn.rec.get("params"):
+            continue
+        pidx = 0
+
+        def mentions(t):
+            return any(isinstance(x, list) and x[:2] == ["param", pidx] for x in lib.subtrees(t))
+
+        prints = cfg.find_events(fn, lambda e: e["e"] == "call" and (qe(e) == "trompeloeil::print" or e.get("op") == "<<")
+                                 and any(mentions(a) and lib.tree_name(lib.strip_casts(a)) not in ("std::forward", "std::move")
+                                         for a in (e.get("args") or [])))
+        if not prints:
+            continue
+        n += 1
+        moves = cfg.find_events(fn, lambda e: e["e"] == "call" and (erase(e.get("q") or "").split("<")[0] in ("std::forward", "std::move"))
+                                and any(mentions(a) for a in (e.get("args") or [])))
+        bad = None
+        for pb, pi, pe in prints:
+            for mb, mi, me in moves:
+                before = (mb == pb and mi < pi) or (mb != pb and pb in cfg.reach(fn, mb))
+                if before and bad is None:
+                    bad = "the result is moved / forwarded from at %s and printed afterwards at %s" % (
+                        short_loc(me.get("loc", "")), short_loc(pe.get("loc", "")))
+        ctx.ob("C17.b.ret.value", AG + "::trace_return", bad is None, pattern=fn.pat, unit=tu.name, inst=fn.q,
+               detail="" if bad is None else "the trace record must show the value the call returns: " + bad)
+    return n
+
+
 def c17c(ctx, tu):
     for fn in tu.find(AG + "::trace_exception"):
         tries = [b for b in fn.rec["blocks"] if b.get("term", {}).get("kind") == "try"]
@@ -297,13 +329,21 @@ def run(ctx):
     ctx.not_decided = ["text layout of the record"]
     n = 0
     units = []
-    for tu in ctx.units(lambda n: n.startswith("core") or n.startswith("repo_ct") or n.startswith("coro")):
+    def want(n):
+        return n.startswith("core") or n.startswith("repo_ct") or n.startswith("coro") or n == "cpp11"
+    want.with_cpp11 = True    # the C++11 level installs a tracer through the library's own exchange()
+    for tu in ctx.units(want):
         if not tu.find(A["dispatch"]):
+            continue
+        if tu.name == "cpp11":
+            c17d(ctx, tu)
+            units.append({"unit": tu.name, "functions": len(tu.fns)})
             continue
         n += c17a(ctx, tu)
         c17b(ctx, tu)
         c17c(ctx, tu)
         c17d(ctx, tu)
+        c17b_value(ctx, tu)
         C08.c08h(ctx, tu, rule="C17.b.exc.escape")   # recording the exception must not replace it
         c17e(ctx, tu)
         c17f(ctx, tu)
